@@ -81,3 +81,17 @@ func twoerrs() error {
 	}
 	return nil
 }
+
+// 11. a modelled effect inside the arguments of an ignored (logging) call
+func nestedEffect() error {
+	util.LogError(remove(), "runtime", "removing")
+	return nil
+}
+
+// 12. a modelled effect inside a statement that the target ignores by prefix
+func droppedBody(s []byte) error {
+	if len(s) == 0 {
+		run()
+	}
+	return nil
+}
